@@ -184,7 +184,66 @@ ByzSpec GenerateSpec(uint64_t seed) {
   return s;
 }
 
+// Small-scope instances: at most five symbols, at most two split events, every
+// count within two of its estimate. Sampled uniformly enough that every shape
+// of this small space turns up within some ten thousand instances.
+ByzSpec GenerateTinySpec(uint64_t seed) {
+  Rng r(mix64(seed, 0x71e7));
+  ByzSpec s;
+  const int n = static_cast<int>(r.Range(1, 5));
+  static const uint32_t all[] = {SYM_C, SYM_S, SYM_L, SYM_R, SYM_E};
+  int verts = 0, merges = 0, ends = 0;
+  for (int i = 0; i < n; ++i) {
+    const uint32_t sym = i == 0 && r.Chance(9, 10) ? SYM_E : all[r.Below(5)];
+    if (sym == SYM_E) {
+      ++ends;
+      verts += 3;
+    } else if (sym == SYM_R || sym == SYM_L) {
+      ++verts;
+    } else if (sym == SYM_S) {
+      ++merges;
+    }
+    s.symbols.push_back(sym);
+  }
+  const uint64_t ns = r.Below(20);
+  const int nsplits = ns < 8 ? 0 : (ns < 17 ? 1 : 2);
+  for (int i = 0; i < nsplits; ++i) {
+    ByzSplit e;
+    e.source = static_cast<uint32_t>(r.Below(static_cast<uint64_t>(n)));
+    e.split = static_cast<uint32_t>(r.Below(static_cast<uint64_t>(e.source) + 1));
+    e.edge = static_cast<uint32_t>(r.Below(2));
+    s.splits.push_back(e);
+  }
+  std::sort(s.splits.begin(), s.splits.end(),
+            [](const ByzSplit &a, const ByzSplit &b) { return a.source < b.source; });
+  s.num_split_symbols = r.Chance(4, 5) ? static_cast<uint32_t>(nsplits)
+                                       : static_cast<uint32_t>(r.Below(3));
+  int interior = 0;
+  for (int i = 0; i < 4; ++i) {
+    const int b = r.Chance(1, 4);
+    s.start_faces.push_back(b);
+    if (b && i < ends) ++interior;
+  }
+  s.num_faces = static_cast<uint32_t>(n + (r.Chance(3, 4) ? interior : 0));
+  int v = verts - merges + static_cast<int>(r.Below(5)) - 2;
+  if (v < 3) v = 3;
+  s.num_vertices = static_cast<uint32_t>(v);
+  const uint64_t a = r.Below(10);
+  s.att_decoders = a < 4 ? 0 : (a < 8 ? 1 : 2);
+  s.num_attribute_data = s.att_decoders == 2 ? 1 : (r.Chance(1, 8) ? 1 : 0);
+  for (uint32_t i = 0; i < s.num_faces * 3 + 8; ++i) s.seams.push_back(r.Chance(1, 3));
+  return s;
+}
+
 }  // namespace
+
+void ByzEdgebreakerBytes(uint64_t seed, int mode, std::vector<uint8_t> *out) {
+  const ByzSpec s = mode == 1 ? GenerateTinySpec(seed) : GenerateSpec(seed);
+  draco::EncoderBuffer buf;
+  WriteSpec(s, &buf);
+  out->assign(reinterpret_cast<const uint8_t *>(buf.data()),
+              reinterpret_cast<const uint8_t *>(buf.data()) + buf.size());
+}
 
 bool ByzEdgebreakerStream(const Workload &w, std::vector<uint8_t> *out,
                           std::string *err) {
